@@ -8,6 +8,7 @@ package main
 import (
 	"fmt"
 	"go/types"
+	"sync"
 
 	"golang.org/x/tools/go/ssa"
 )
@@ -28,21 +29,23 @@ type sendReq struct {
 }
 
 type goroutine struct {
-	id     int
-	resume chan struct{}
-	done   bool
-	cond   func() bool // nil = runnable
-	what   string
-	fr     *frame
+	id   int
+	wake chan struct{}
+	done bool
+	cond func() bool // nil = runnable
+	what string
 }
 
 type scheduler struct {
-	i        *interpreter
-	gs       []*goroutine
-	cur      *goroutine
-	aborting *pathEnd
-	preempts int
-	maxPreempt int
+	i           *interpreter
+	gs          []*goroutine
+	cur         *goroutine
+	abort       *pathEnd
+	killing     bool
+	preempts    int
+	maxPreempt  int
+	wg          sync.WaitGroup
+	aliveAtExit int
 }
 
 func makeChan(fr *frame, t types.Type, size int) value {
@@ -149,7 +152,9 @@ func chanRecv(fr *frame, instr *ssa.UnOp, ch value) value {
 	if s := fr.i.sched; s != nil {
 		s.yield(fr, "chan recv")
 	}
+	c.recvWaiting++
 	waitUntil(fr, "chan receive", func() bool { return chanRecvReady(c) })
+	c.recvWaiting--
 	v, ok := chanTake(c)
 	if instr.CommaOk {
 		return tuple{v, ok}
@@ -285,16 +290,3 @@ func (p *Path) choose(fr *frame, n int) int {
 	return 0
 }
 
-// --- scheduler (filled in by sched2.go when concurrency is enabled)
-
-func (s *scheduler) block(fr *frame, what string, cond func() bool) {
-	if cond() {
-		return
-	}
-	panic(pathEnd{stUnsupported, "scheduler not available"})
-}
-func (s *scheduler) yield(fr *frame, what string)            {}
-func (s *scheduler) spawn(fr *frame, fn value, args []value) { panic(pathEnd{stUnsupported, "scheduler not available"}) }
-func (s *scheduler) runMain(i *interpreter, fn *ssa.Function, args []value) {
-	panic(pathEnd{stUnsupported, "scheduler not available"})
-}
